@@ -9,6 +9,11 @@ coq/gen/SrcEigenC10.v:
   src_quaternionToEulerAngles    rotation3DToEulerAngles(q.normalized().toRotationMatrix())  (rotation3DToEulerAngles = the term of
                                  gen/SrcFunsC10.v)
 
+  src_toPolar / src_polarToCartesian / src_toSpherical / src_sphericalToCartesian
+                                 toPolar(CartesianCoordinates2), toCartesian(PolarCoordinates), toSpherical(CartesianCoordinates3),
+                                 toCartesian(SphericalCoordinates) of include/romea_core_common/coordinates/*.hpp: template classes
+                                 with a base class, getters, static member templates — all inlined
+
 Eigen's own formulas (AngleAxis -> Quaternion, quaternion product, toRotationMatrix, normalized) are part of the evaluator
 (eigensym.py, transcribed from Eigen 3.4); what is tied is how the source composes them.  coq/SrcTieC10Eigen.v proves the
 generated terms equal to the models of AnglesModel.v.  Failures are reported for C10 only."""
@@ -26,6 +31,38 @@ TU = ("template Eigen::Matrix<double, 2, 2> romea::core::eulerAngleToRotation2D<
       "template Eigen::Matrix<double, 3, 3> romea::core::eulerAnglesToRotation3D<double>(const Eigen::Matrix<double, 3, 1> &);\n"
       "template Eigen::Matrix<double, 3, 1> romea::core::quaternionToEulerAngles<double>(const Eigen::Quaternion<double> &);\n")
 REQ = (EA, "romea::core::", TU)
+PC = "include/romea_core_common/coordinates/PolarCoordinates.hpp"
+SC = "include/romea_core_common/coordinates/SphericalCoordinates.hpp"
+REQ_P = (PC, "romea::core::", "template romea::core::PolarCoordinates<double> romea::core::toPolar<double>(const romea::core::CartesianCoordinates2<double> &);\n"
+         "template romea::core::CartesianCoordinates2<double> romea::core::toCartesian<double>(const romea::core::PolarCoordinates<double> &);\n")
+REQ_S = (SC, "romea::core::", "template romea::core::SphericalCoordinates<double> romea::core::toSpherical<double>(const romea::core::CartesianCoordinates3<double> &);\n"
+         "template romea::core::CartesianCoordinates3<double> romea::core::toCartesian<double>(const romea::core::SphericalCoordinates<double> &);\n")
+
+
+def unit_coord(loaded, req, name, param_sub, cname, fields, lines):
+    """a coordinate conversion; an object result is returned as the tuple of the listed members"""
+    objs = loaded[req]
+    if isinstance(objs, Unsupported):
+        raise objs
+    ix = Index()
+    ix.add(objs)
+    ds = [d for d in ix.find(name, nparams=1)
+          if any(c.get("kind") == "TemplateArgument" for c in d.get("inner", []) if isinstance(c, dict))
+          and param_sub in d.get("type", {}).get("qualType", "")]
+    if len(ds) != 1:
+        raise Unsupported("%s<double>(%s): %d instantiations" % (name, param_sub, len(ds)))
+    ev = Ev(ix, cname)
+    ret = ev.run(ds[0])
+    if fields is None:
+        if not isinstance(ret, Mat):
+            raise Unsupported("%s does not return a vector" % name)
+        outs = [("result", ret)]
+    else:
+        if not isinstance(ret, eigensym.Obj) or sorted(ret.fields) != sorted(fields):
+            raise Unsupported("%s returns %s" % (name, sorted(ret.fields) if isinstance(ret, eigensym.Obj) else type(ret).__name__))
+        outs = [(f, ret.fields[f]) for f in fields]
+    text, _ = emit(ev, cname, outs, "%s: %s<double>(%s)" % (req[0], name, param_sub))
+    lines.append(text)
 
 
 def unit(ix, name, cname, kind, known, lines):
@@ -43,7 +80,7 @@ def unit(ix, name, cname, kind, known, lines):
 
 def generate(gen_dir, repo):
     errors, lines = [], []
-    loaded = eigensym.load_many(repo, [REQ])
+    loaded = eigensym.load_many(repo, [REQ, REQ_P, REQ_S])
     objs = loaded[REQ]
     if isinstance(objs, Unsupported):
         errors.append(("C10", "clang: %s" % objs))
@@ -69,6 +106,21 @@ def generate(gen_dir, repo):
             known = {"rotation3DToEulerAngles": eigensym.known_from_gen(gen_dir, "SrcFunsC10.v", "src_rotation3DToEulerAngles")}
             unit(ix, "quaternionToEulerAngles", "src_quaternionToEulerAngles", Mat, known, lines)
         attempt("src_quaternionToEulerAngles", q2e)
+    def attempt2(what, fn):
+        try:
+            fn()
+            return
+        except Unsupported as e:
+            errors.append(("C10", "%s: %s" % (what, e)))
+        except Exception as e:  # noqa
+            errors.append(("C10", "%s: internal error %r" % (what, e)))
+        lines.append("(* %s: NOT TRANSLATED — %s *)\n" % (what, str(errors[-1][1]).replace("*)", "* )").replace("(*", "( *")[:300]))
+    attempt2("src_toPolar", lambda: unit_coord(loaded, REQ_P, "toPolar", "CartesianCoordinates2<double>", "src_toPolar", ["range_", "azimut_"], lines))
+    attempt2("src_polarToCartesian", lambda: unit_coord(loaded, REQ_P, "toCartesian", "PolarCoordinates<double>", "src_polarToCartesian", None, lines))
+    attempt2("src_toSpherical", lambda: unit_coord(loaded, REQ_S, "toSpherical", "CartesianCoordinates3<double>", "src_toSpherical",
+                                                   ["range_", "azimut_", "elevation_"], lines))
+    attempt2("src_sphericalToCartesian", lambda: unit_coord(loaded, REQ_S, "toCartesian", "SphericalCoordinates<double>", "src_sphericalToCartesian",
+                                                            None, lines))
     text = eigensym.HEAD % (ME, "From Romea.gen Require Import SrcFunsC10.") + "\n".join(lines) + "\n"
     return text, errors
 
